@@ -46,6 +46,27 @@ int_unop!(increment_int, increment, ref_increment);
 int_unop!(decrement_int, decrement, ref_decrement);
 int_unop!(bitwise_not_int, bitwise_not, ref_bitwise_not);
 
+/// `**` on integers, the induction step over the exponent for every base and the exponents 2..=31 (the exponents below the bit
+/// width: every result that fits comes from one of them unless the base is -1, 0 or 1): `a ** b` is `a ** (b - 1)` times `a` when
+/// that fits and undefined otherwise. With the base cases of power_undefined_int (exponent 0 gives 1, exponent 1 gives the base)
+/// this is, by induction on the exponent, exactness of `**` for all bases and exponents 0..=31 - the quick-tier part of
+/// power_int, without an iterated reference computation
+pub fn power_small_exponent_int<S: Src>(s: &mut S) {
+    let a = s.i32();
+    let b = s.i32();
+    s.assume(2 <= b && b <= 31);
+    let prev = Integer(a).power(Integer(b - 1));
+    let r = Integer(a).power(Integer(b));
+    // one more factor: exact when it fits; once a power of a base of magnitude >= 2 no longer fits, no later one does
+    // (bases -1, 0, 1 never overflow, so `prev` is never None for them - checked by the first arm)
+    let want = match prev {
+        Some(Integer(p)) => { let m = p as i64 * a as i64; if m > i32::MAX as i64 || m < i32::MIN as i64 { None } else { Some(Integer(m as i32)) } }
+        Some(_) => { s.check(false, "exact_or_none"); None }
+        None => { s.check(a >= 2 || a <= -2, "exact_or_none"); None }
+    };
+    s.check(same(r, want), "exact_or_none");
+}
+
 /// `**` on integers, the part that needs no multiplication chain: a negative exponent is undefined,
 /// exponent 0 gives 1, exponent 1 gives the base (the general case is power_int, thorough tier)
 pub fn power_undefined_int<S: Src>(s: &mut S) {
